@@ -3,7 +3,7 @@
 # (scratch worktree per mutant, removed afterwards); a mutant that still verifies is a hole in the contracts.
 prop=$1; dir=${2:-/verif/selftest/mutants/$prop}
 one() { p=$1; prop=$2
-  out=$(/verif/tools/mutant.sh "$p" "$prop" 2>&1); rc=$?
+  out=$(GOVC_NORETRY=1 /verif/tools/mutant.sh "$p" "$prop" 2>&1); rc=$?
   if echo "$out" | grep -q '^VIOLATION'; then echo "KILLED   $(basename $p .diff): $(echo "$out" | grep '^VIOLATION' | head -2 | sed 's/.*replay=[^ ]*\///' | tr '\n' ' ' | cut -c1-200)";
   elif echo "$out" | grep -q 'DOES NOT APPLY'; then echo "STALE    $(basename $p .diff)";
   else echo "SURVIVED $(basename $p .diff): $(echo "$out" | grep -E '^(UNDECIDED|TOOL)' | head -2 | tr '\n' ' ' | cut -c1-200)"; fi; }
